@@ -41,6 +41,28 @@ func runC15(env *Env, rc *RunCtx) {
 		wide = t.Range(2, 7)
 	}
 	c := GenCase(t, GenOpts{Enc: -1, AllowRecursion: true, Gadgets: true, MaxTuples: 18, WideNode: wide})
+	// one run in forty: a node with a thousand or more subject sets (sizes around
+	// the powers of ten and two an internal page size would plausibly be), none
+	// of which leads to the subject, under a small width limit: the check has to
+	// page through all of them inside ONE storage call and come back
+	wideGadget := false
+	if t.Bool(1, 40) {
+		wideGadget = true
+		k := []int{999, 1000, 1001, 1024, 2000, 2001, 2048, 3001}[t.Choose(8)]
+		c.Cfg = plainCfg
+		c.Tuples = nil
+		for i := 0; i < k; i++ {
+			c.Tuples = append(c.Tuples, Tuple{NS: "N0", Obj: "wide", Rel: "r0", Sub: Subject{Set: &SetRef{NS: "N0", Obj: fmt.Sprintf("g%d", i), Rel: "r0"}}})
+		}
+		c.Tuples = append(c.Tuples, Tuple{NS: "N0", Obj: "g1", Rel: "r0", Sub: Subject{ID: "somebody-else"}})
+		c.Query = Tuple{NS: "N0", Obj: "wide", Rel: "r0", Sub: Subject{ID: "u0"}}
+		c.Conforming = false
+		width = []int{2, 3, 5}[t.Choose(3)]
+		if depth < 2 {
+			depth = 2
+		}
+		rc.Count("probe_node_with_1000_plus_subject_sets", 1)
+	}
 	rc.Rec.CaseHash = fmt.Sprintf("%016x", c.Hash()^uint64(depth*131+width))
 	ref := RefCheck(c.Cfg, c.Tuples, c.Query)
 	// bound on storage calls, in the quantities the property names
@@ -53,7 +75,8 @@ func runC15(env *Env, rc *RunCtx) {
 		}
 	}
 	f := width
-	if ref.MaxFanout > f {
+	if ref.MaxFanout > f && !wideGadget {
+		// (in the wide gadget the engine follows at most `width` of the subject sets)
 		f = ref.MaxFanout
 	}
 	B := math.Pow(float64((f+1)*(rw+2)), float64(depth+1))
